@@ -339,6 +339,31 @@ func runC08(cs *vrt.Case) {
 			}
 		}
 	}
+	// one Params object shared by several Compiler instances (as apps/garbled
+	// and the repository's test suite use it), with OTHER programs compiled
+	// first: whatever an earlier compilation leaves behind in the shared
+	// parameters must not change this program's circuit
+	for round := 0; round < 2; round++ {
+		shared := c08Params(variant)
+		for k := r.Range(1, 3); k > 0; k-- {
+			var o c08Program
+			if r.Intn(3) == 0 {
+				o = progs[r.Intn(len(progs))]
+				if len(o.src) >= 4000 {
+					continue
+				}
+			} else {
+				w := vrt.Pick(r, []int{8, 16, 17, 19, 21, 24, 32, 37, 40, 41, 64, 100})
+				o = c08Program{name: "mult", src: fmt.Sprintf("package main\n\nfunc main(a, b uint%d) (uint%d, uint%d) {\n\treturn a * b, a / (b | 1)\n}\n", w, w, w)}
+			}
+			vrt.Guard(func() { c08Compile(nil, shared, o.src, o.sizes) })
+			cs.Count("other_programs_compiled_first_with_shared_params", 1)
+		}
+		d, err, pan := c08Compile(nil, shared, p.src, p.sizes)
+		if !note("new instance, shared Params after other programs", d, err, pan) {
+			return
+		}
+	}
 	// concurrent compilations
 	var wg sync.WaitGroup
 	var mu sync.Mutex
